@@ -23,7 +23,7 @@ def parseEv (w : String) : Option Ev :=
       let seq ← seq.toNat?
       let tag ← tag.toNat?
       let has (c : Char) := flags.toList.contains c
-      pure (.frame ⟨seq, has 'q', has 'h', has 'o', has 'E', tag, !has 'u'⟩)
+      pure (.frame ⟨seq, has 'q', has 'h', has 'o', has 'E', tag, !(has 'u' || has 'k')⟩)
     | _ => none
   else
     match w.toList with
@@ -46,6 +46,8 @@ def cmdMux (ws : List String) : String :=
     let evs := evs.flatMap (fun w =>
       if w.startsWith "H" then ["T", "r" ++ (w.drop 1).toString]
       else if w.startsWith "K" then ["C", "T", "r" ++ (w.drop 1).toString]
+      else if w.startsWith "N" then ["r" ++ (w.drop 1).toString, "w" ++ (w.drop 1).toString, "T"]
+      else if w.startsWith "p:" then ["T"]   -- the stream ends inside a frame: a reader termination
       else [w])
     match evs.mapM parseEv with
     | none => "bad-event"
